@@ -4321,11 +4321,10 @@ impl<'a> CodeGenerator<'a> {
                     match term.pierce_no_inlines_ref() {
                         Term::Var(_) => Some(term.force()),
                         Term::Delay(inner_term) => Some(inner_term.as_ref().clone()),
-                        Term::Apply { .. } => Some(term.force()),
-                        _ => unreachable!(
-                            "Shouldn't call anything other than var or apply\n{:#?}",
-                            term
-                        ),
+                        // Whatever else evaluates to a function without arguments (an
+                        // if / when expression choosing between two of them, a field access,
+                        // ...) is called the same way: by forcing it.
+                        _ => Some(term.force()),
                     }
                 }
             }
